@@ -252,7 +252,7 @@ def freeze(v):
         if getattr(v, "frozen", False):
             return v
         r = VSet(v.pred, arity=v.arity, kind=v.kind, owned=False)
-        for k in ("nx_view", "seq_view", "known_empty"):
+        for k in ("nx_view", "seq_view", "known_empty", "two_items", "array"):
             if hasattr(v, k):
                 setattr(r, k, getattr(v, k))
         r.frozen = True
